@@ -21,6 +21,8 @@ def run_all(ctx, prop):
         from props import asm_cbcsc
         asm_cbcsc.run_family(ctx, prop)     # x16 VAES CBC-encrypt managers (scenario form)
     if prop in ('C04', 'C07', 'C13'):
+        from props import asm_ccm
+        asm_ccm.run_family(ctx, prop)
         from props import asm_hmac, asm_cmac
         asm_hmac.run_family(ctx, prop)
         asm_cmac.run_family(ctx, prop)
